@@ -227,7 +227,9 @@ def execute(case):
                 n.r = 5
             except Exception:
               pass
-        if any(isinstance(k, int) for n in C15.reachable_buildables(root) for k in n.__arguments__):
+        if any(isinstance(k, int) for n in C15.reachable_buildables(root)
+               for k in list(n.__arguments__) + list(n.__argument_tags__)):
+          # (also a value-less tag keyed by a positional index)
           res['diff'] = 'skipped-positional'     # build_diff does not support positional arguments (C10 finding)
         else:
           d = diffing.build_diff(old, root)
